@@ -75,7 +75,7 @@ structure Reply where
 
 inductive Owner where
   | user (tok : Nat)      -- application callback identified by its token
-  | probe                 -- server_probe_cb
+  | probe (srv : Nat)     -- server_probe_cb; its argument is the probed server
   | client (id : Nat)     -- completion callback of a compound request (ares_query / ares_search / …)
   deriving Repr, DecidableEq, Inhabited
 
